@@ -7,7 +7,8 @@ PROPS["C09"] = P(
     "rear lengths on the VByte boundaries (127/128/129, 16511/16512/16513, thorough: 2113663/2113664/2113665) at every block offset, a content x order x k x n grid "
     "(contents: all-empty strings, shared prefixes 0..300, multi-byte UTF-8 with prefixes ending inside a code point, edge bytes 0x01..0xF4, duplicates, tiny alphabet, words, long strings, prefix chains; "
     "orders: sorted, reverse, shuffled, sorted-except-last; k in 1,2,3,4,5,8,16,64,n,n+1; n in 1,k-1,k,k+1,2k-1,2k,2k+1,3k,3k+2), lists of 10^3..10^5 strings with sampled positions, random lists on top. "
-    "distinct_nontrivial = number of distinct cells (content stratum | order | k class | relation of n to k) whose list held at least 2 strings, plus the dedicated empty-list / from-len cells (op | k | n/k)",
+    "distinct_nontrivial = number of distinct cells (content stratum | order | k class | relation of n to k) whose list held at least 2 strings, plus the dedicated empty-list / from-len cells (op | k | n/k)"
+    ' Iterator-protocol monitor on iter / iter_from. ',
     dict(builds=["DBG", "UBC"]),
     dict(builds=["DBG", "UBC", "MIRI"], shards={"MIRI": 8}),
     hang="violation",
